@@ -32,15 +32,22 @@ JOBS = [
          # supporting fact, not counted.
          soft=[r'^Check that \(\(uint8_t \*\)dst\)\[\(signed long int\)i\] is assignable'],
          est_s=120, wip=False, **L9),
-    # C09: compressor: every write inside dst, result <= bound, bound-sized buffer always enough
-    dict(name='c09_lz4_compress', props=['C09', 'C10'], entry='h_lz4_compress', enforce='carquet_lz4_compress',
-         replace=['lz4_count', 'carquet_lz4_compress_bound'], unwindset=UW, min_loop_obligations=4, est_s=300,
-         timeout=900, mem_gb=14, replayer=FZ_C, wip=True, tier='thorough',
-         note='UNDECIDED (resources): contract, 4 loop invariants (division-free size invariant 255*(o-a) <= a) and the C10 '
-              'end-of-block assertions are written; a single selected obligation closes in 90 s / 1.2 GB, the full set '
-              '(907 obligations) did not finish in 800 s / 7 GB (minisat, also with --stop-on-fail) and needs > 19 GB with '
-              'cadical on the shared machine. No counterexample seen; libFuzzer replay/fz/lz4_compress.c ran 4.3M inputs clean.',
-         **L9),
+    # C09 + C10: compressor, one contract / one set of loop invariants, obligations split over slices (select=):
+    #   every write inside dst, result <= bound, a bound-sized buffer always succeeds (the four internal space
+    #   checks are unreachable), end-of-block rules, and the emitted token / length bytes / offset parse back.
+] + [
+    dict(name='c09_lz4_compress_' + nm, props=['C09', 'C10'], entry='h_lz4_compress', enforce='carquet_lz4_compress',
+         replace=['lz4_count', 'carquet_lz4_compress_bound'], unwindset=UW, min_loop_obligations=mlo,
+         select=sel, timeout=1800, mem_gb=12, replayer=FZ_C, wip=True, tier='thorough', **L9)
+    for nm, sel, mlo in [
+        ('assigns', r'\.assigns\.', 0),
+        ('deref_kind', r'\.pointer_dereference\.(?!.*outside object bounds)', 0),
+        ('deref_bounds', r'\.pointer_dereference\..*outside object bounds|\.array_bounds\.', 0),
+        ('invariants', r'^carquet_lz4_compress\.\d+ ', 4),
+        ('asserts_post', r'\.assertion\.|\.postcondition\.', 0),
+        ('rest', r'^(?!.*(\.assigns\.|\.pointer_dereference\.|\.array_bounds\.|\.assertion\.|\.postcondition\.))(?!carquet_lz4_compress\.\d+ )', 0),
+    ]
+] + [
     # C10 decoder direction, bounded by complete unwinding on small blocks (no loop contracts applied)
     dict(name='c10_lz4_decoder_accepts_valid', prop='C10', entry='h_lz4_decompress_accepts_every_valid',
          loop_contracts=False, unwind=9, defines=['CQV_N=4', 'CQV_CAP=8'], level='bounded',
